@@ -19,7 +19,7 @@ def refuseStr : Refuse → String
 
 def outStr : Out → String
   | .ok => "ok" | .signed => "signed" | .refused r => "refused:" ++ refuseStr r | .pending => "pending"
-  | .errPropSlotZero => "err" | .errFault => "fault" | .badOp => "badop"
+  | .errPropSlotZero => "err" | .errFault => "fault" | .badOp => "badop" | .blocked => "blocked"
 
 def chkStr : Option Refuse → String
   | none => "ok" | some r => refuseStr r
@@ -42,6 +42,23 @@ def onShare (d : D) (k : Nat) (op : Op) (pre : State → String) : D × String :
     ({ d with shares := setAt d.shares k s' }, outStr o ++ pre s ++ " " ++ readback s')
 
 def anyPending (d : D) : Bool := d.shares.any fun s => s.pend.isSome
+def anyDelayed (d : D) : Bool := d.shares.any fun s => s.delayed.isSome || s.delayedOut.isSome
+
+/-- the wallet lock is shared by all shares: when the in-flight bump (of any share) has finished, the request that
+    was waiting (on any share) executes at the current clock -/
+def drainAll (d : D) : D :=
+  if anyPending d then d else
+  { d with shares := d.shares.map fun s => if s.delayed.isSome then drain d.cfg { s with clock := d.clock } else s }
+
+/-- a lock-taking request on share `k`: waits if a bump of ANY share is in flight (one waiting request at a time) -/
+def lockOp (d : D) (k : Nat) (op : Op) (delayable : Bool) (pre : State → String) : D × String :=
+  if anyPending d then
+    match d.shares[k]? with
+    | none => (d, "bad-op")
+    | some s =>
+      if anyDelayed d || !delayable then (d, "badop " ++ readback s)
+      else ({ d with shares := setAt d.shares k { s with delayed := some op } }, "blocked " ++ readback s)
+  else onShare d k op pre
 
 def insertAll (x : Nat) : List Nat → List (List Nat)
   | [] => [[x]]
@@ -82,38 +99,41 @@ def stepLine (d : D) (line : String) : D × String :=
     match kvNat ws "dt" with
     | some dt => ({ d with clock := d.clock + dt }, "ok")
     | none => (d, "bad-op")
-  | "restart" :: _ => ({ d with shares := d.shares.map fun s => (step d.cfg s .restart).1 }, "ok")
+  | "restart" :: _ =>
+    ({ d with shares := d.shares.map fun s => (step d.cfg { s with clock := d.clock } .restart).1 }, "ok")
   | opn :: _ =>
     match kvNat ws "k" with
     | none => (d, "bad-op")
     | some k =>
       let plain := fun (_ : State) => ""
       match opn with
-      | "add" => onShare d k .addShare plain
+      | "add" => lockOp d k .addShare true plain
       | "addfail" => match kvNat ws "n" with
-        | some n => onShare d k (.addFail n) plain
+        | some n => lockOp d k (.addFail n) false plain
         | none => (d, "bad-op")
-      | "remove" => onShare d k .removeShare plain
+      | "remove" => lockOp d k .removeShare true plain
       | "removefail" => match kvNat ws "n" with
-        | some n => onShare d k (.removeFail n) plain
+        | some n => lockOp d k (.removeFail n) false plain
         | none => (d, "bad-op")
-      | "bump" => onShare d k .bump plain
+      | "bump" => lockOp d k .bump true plain
+      | "resume" => onShare d k .resume plain
       | "bbegin" =>
         if anyPending d then
           match d.shares[k]? with
           | some s => (d, "badop " ++ readback s)
           | none => (d, "bad-op")
         else onShare d k .bumpBegin plain
-      | "bread" => onShare d k .bumpRead plain
-      | "bwrite" => onShare d k .bumpWrite plain
+      | "bread" => let (d', o) := onShare d k .bumpRead plain; (drainAll d', o)
+      | "bwrite" => let (d', o) := onShare d k .bumpWrite plain; (drainAll d', o)
       | "satt" => match kvNat ws "s", kvNat ws "t" with
-        | some x, some y => onShare d k (.signAtt x y) fun s => " chk=" ++ chkStr (checkAtt s.d.att x y)
+        | some x, some y => lockOp d k (.signAtt x y) true fun s => " chk=" ++ chkStr (checkAtt s.d.att x y)
         | _, _ => (d, "bad-op")
       | "sblk" => match kvNat ws "slot" with
-        | some sl => onShare d k (.signBlock sl) fun s => " chk=" ++ chkStr (checkProp s.d.prop sl)
+        | some sl => lockOp d k (.signBlock sl) true fun s => " chk=" ++ chkStr (checkProp s.d.prop sl)
         | none => (d, "bad-op")
       | "sattf" => match kvNat ws "s", kvNat ws "t" with
         | some x, some y =>
+          if anyPending d then lockOp d k (.signAttFault x y) false plain else
           let (d', o) := onShare d k (.signAttFault x y) fun s => " chk=" ++ chkStr (checkAtt s.d.att x y)
           -- mode=close: the database was closed under the request; the harness reopens it (= restart) inside the op
           if kv ws "mode" == some "close" then
@@ -122,12 +142,14 @@ def stepLine (d : D) (line : String) : D × String :=
         | _, _ => (d, "bad-op")
       | "sblkf" => match kvNat ws "slot" with
         | some sl =>
+          if anyPending d then lockOp d k (.signBlockFault sl) false plain else
           let (d', o) := onShare d k (.signBlockFault sl) fun s => " chk=" ++ chkStr (checkProp s.d.prop sl)
           if kv ws "mode" == some "close" then
             ({ d' with shares := d'.shares.map fun s => (step d'.cfg s .restart).1 }, o)
           else (d', o)
         | none => (d, "bad-op")
       | "xconc" =>
+        if anyPending d then lockOp d k .bump false plain else
         -- concurrent block across shares (oracle-only on the implementation side): every listed request for share k
         -- is run once, sequentially; the generator only lists requests the stored records refuse, so nothing changes
         match d.shares[k]?, (kv ws "reqs").bind parseReqs, (kv ws "slots").bind parseNats with
@@ -138,6 +160,7 @@ def stepLine (d : D) (line : String) : D × String :=
           ({ d with shares := setAt d.shares k s2 }, "ok " ++ readback s2)
         | _, _, _ => (d, "bad-op")
       | "conc" =>
+        if anyPending d then lockOp d k .bump false plain else
         match d.shares[k]?, (kv ws "reqs").bind parseReqs, kv ws "got" with
         | some s0, some reqs, some gotS =>
           let got := gotS.toList.map (· == '1')
